@@ -260,12 +260,8 @@ def tvAtoms : TV → List Atom
   | .ok vs => vs
   | _ => []
 
-def flagsFor (t : Option SType) (text : String) : String :=
-  match t with
-  | none => ""
-  | some T =>
-    ",".intercalate ((if unionMemberSkipped T then ["F20h"] else []) ++
-      (if facetDecides T text then ["F20j"] else []))
+/-- trigger flags of decoder findings: none remain (F20c/g/h/i/j are fixed) -/
+def flagsFor (_t : Option SType) (_text : String) : String := ""
 
 def showOps (vs : Option (List Atom)) : String :=
   match vs with
@@ -304,12 +300,12 @@ def report (fv : Bool) (s : Schema) : Nat → Forest Ann → List String
   | _, .nil => []
   | start, .leaf _ _ r => report fv s (start + 1) r
   | start, .elem a _ ats _ kids rest =>
-    let m := elemTypedValue s a ats kids
+    let m := elemTypedValue isValid s a ats kids
     let sp := specElemValue s a ats kids
     let ct := a.xsdType.bind (contentType s)
     let me := s!"n{start}|T={(a.typeName s).getD "~"}|E={if a.xsdElem.isSome then 1 else 0}|C={kindChar s a}|M={showTV m}|S={showSpec sp}|K={flagsFor ct (elemText a kids)}|IM={instBits (tvAtoms m)}|IS={instBits (sp.getD [])}|OM={showOps (tvOpt m)}|OS={showOps sp}|NM={(nilBits (nilled ats) ct).1}|NS={(nilBits (nilled ats) ct).2}"
     let attrs := (attrNodesV fv s a ats).zipIdx.map fun (an, k) =>
-      let am := attrTypedValue an
+      let am := attrTypedValue isValid an
       let asp := specAttrValue an.type an.value
       s!"a{start}.{k}|N={an.name}|T={an.typeName.getD "~"}|D={if an.defaulted then 1 else 0}|M={showTV am}|S={showSpec asp}|K={flagsFor an.type an.value}|IM={instBits (tvAtoms am)}|IS={instBits (asp.getD [])}|OM={showOps (tvOpt am)}|OS={showOps asp}"
     (me :: attrs) ++ report fv s (start + 1 + ats.length) kids ++
